@@ -97,7 +97,12 @@ impl MatrixId {
     /// a slash and they can be in any order.
     pub(crate) fn parse_with_type(s: &str) -> Result<Self, Error> {
         let s = if let Some(stripped) = s.strip_prefix('/') { stripped } else { s };
-        let s = if let Some(stripped) = s.strip_suffix('/') { stripped } else { s };
+        // Only strip a trailing slash if it is not the separator between a type and an empty
+        // identifier, like in `roomid/` for the room ID `!`.
+        let s = match s.strip_suffix('/') {
+            Some(stripped) if ![1, 3].contains(&s.matches('/').count()) => stripped,
+            _ => s,
+        };
         if s.is_empty() {
             return Err(MatrixIdError::NoIdentifier.into());
         }
